@@ -4,6 +4,10 @@ import json, os
 HERE = os.path.dirname(os.path.dirname(os.path.abspath(__file__)))
 
 CHECKS = {
+ 'C05': dict(level='model_checking', design='2/C05',
+   technique='deviation-bounded stateless DFS over completion schedules (validator futures, begin_auth futures, executor jobs, packet deliveries) of every bounded USERAUTH request history, real server vs scripted independent client, auth ground-truth reference model',
+   text='All histories of USERAUTH requests up to length 2 over the full alphabet and 3 (thorough 4) over a reduced one are sent pipelined by refpeer to a real SSHServerConnection whose application callbacks complete when the explorer says so; every schedule with at most 2 (thorough 3) deviations from FIFO is executed. The connection may be authenticated as U only if the history contains a credential valid for U; success and auth_completed at most once; no channel before success; enforced forced-command / port-forwarding restrictions (probed with exec and direct-tcpip) must be those of a valid credential for U. Converse: real asyncssh clients with password, key, certificate and agent-held key are admitted.',
+   note='application callbacks return the ground truth but at arbitrary times; GSS / security-key / host-based methods are not driven; ed25519 client keys.'),
  'C02': dict(level='model_checking', design='2/C02',
    technique='exhaustive enumeration of algorithm configurations x payload lengths against an independent RFC 4253 codec (refpeer), plus exhaustive bounded enumeration of stream segmentations of a real<->real session on the controlled loop',
    text='Every (kex | cipher x MAC x compression) configuration refpeer implements is run in both roles with channel-data payloads of every length 0..4*blocksize+8 and around 256/32768; refpeer derives its own keys and verifies MAC/tag, sequence numbers, padding >= 4, alignment and the exact payload sequence. Every single split point of both byte streams of a complete session, every uniform chunk size 1..67 and pairs of splits around packet headers are replayed and must give the unsegmented observation. /usr/bin/ssh is run against an asyncssh server as a second independent decoder.',
